@@ -43,6 +43,9 @@ ASSUMPTIONS = [
     "is used at top level and in key / mouse handlers only; after a terminal resize the harness exposes the whole root)",
     "a handler of the kinds EXPOSE / FOCUS / GEOMCHANGE makes a call that dispatches its own kind again only after it has "
     "unbound itself (the harness cuts a handler's nesting off at depth 6, the model has no such cut-off)",
+    "DESTROY handlers that make calls are NOT modelled (the model records the binding and never runs it): for scripts that "
+    "bind one (b<i>.d...., about 3 % of the W cases) the observation is not compared with the model's, the oracle -- the "
+    "extracted discipline on the trace of calls the harness reports -- judges them alone, and no theorem is about them",
     "a single root window per script; the harness holds the only client reference to the terminal",
     "R cases: text and erase calls cover a whole line, so that a line is a single span (span splitting, masks, clips "
     "and translation belong to C03/C04); pens / frames / strings of a buffer are counted as live blocks of their sizes",
@@ -160,6 +163,7 @@ def gen_wf_script(rnd, maxops, events, release, efg=False):
     toks = []
     nwin = 1
     armed = False      # an EXPOSE / FOCUS / GEOMCHANGE handler is bound: flush, take_focus and set_geometry dispatch
+    dbound = False     # a DESTROY handler is bound: the last unref of a window dispatches
 
     def pick(pred):
         c = [i for i in range(nwin) if pred(i)]
@@ -227,9 +231,10 @@ def gen_wf_script(rnd, maxops, events, release, efg=False):
             if i is not None:
                 rk = rnd.random()
                 if efg and rk < 0.5:
-                    kind = rnd.choice("efg")
-                    op = "b%d.%s.0.%d.%s" % (i, kind, rnd.randint(0, 1), action_for(i, kind))
+                    kind = rnd.choice("efgefgd")
+                    op = "b%d.%s.0.%d.%s" % (i, kind, rnd.randint(0, 1), action_for(i, "g" if kind == "d" else kind))
                     armed = True
+                    dbound = dbound or kind == "d"
                 elif efg and rk < 0.6:
                     op = "N%d.%d" % (i, rnd.randint(0, 1))
                 elif rnd.random() < 0.5:
@@ -246,7 +251,7 @@ def gen_wf_script(rnd, maxops, events, release, efg=False):
         if op[0] == 'n':
             nwin += 1
         toks.append(op)
-        if op[0] in "kmZ" or (armed and op[0] in "tyfp"):
+        if op[0] in "kmZ" or (armed and op[0] in "tyfp") or (dbound and op[0] in "uc"):
             # the ghost of the generator does not follow handlers: stop relying on it
             break
     if release and not armed and not any(t[0] in "kmZ" for t in toks):
@@ -402,6 +407,20 @@ def gen_W(tier, seed, info):
             for where in (0, 1):
                 stats["exhaustive"] += 1
                 yield "W n0.0 %s b%d.g.0.0.%s Z f0 Z y0 f0" % (" ".join(keep), where, body)
+    # DESTROY handlers that make calls on OTHER windows (not modelled; judged by the oracle alone): the handler of a
+    # window that is being destroyed flushes, exposes, moves the focus, resizes, releases / closes its parent, the root or
+    # a sibling, creates a window -- while its own window is still in the tree with no reference left
+    for shape, dying, others in ((["n0.0"], 1, [0]), (["n0.0", "n0.0"], 1, [0, 2]), (["n0.0", "n1.0", "n0.0"], 2, [0, 1, 3]),
+                                 (["n0.0", "n1.0", "r2"], 1, [0, 2])):
+        bodies = ["f0", "x0,f0", "u0", "t0", "y0", "Z", "n0.0", "R%d" % dying, "-"]
+        for o in others:
+            if o != 0:
+                bodies += ["u%d" % o, "c%d,u%d" % (o, o), "t%d" % o, "y%d" % o, "p%d" % o, "x%d,f0" % o, "h%d,f0" % o, "n%d.0" % o]
+        for body in bodies:
+            for pre in ([], ["t%d" % dying], ["R%d" % dying], ["x0"]):
+                for how in (["u%d" % dying], ["c%d" % dying, "u%d" % dying]):
+                    stats["exhaustive"] += 1
+                    yield "W " + " ".join(shape + pre + ["b%d.d.0.0.%s" % (dying, body)] + how + ["f0"])
     # the expose handlers release the root itself (flush goes on using it), at the root and below
     for where in (0, 1, 2):
         for body in ("u0", "c1,u1,u0", "u1,u0", "c0,u0", "u0,u1"):
@@ -424,7 +443,7 @@ def gen_W(tier, seed, info):
         # after the first event the generator no longer knows the state: add a few more events and a flush
         nw = 1 + sum(1 for t in toks if t[0] == 'n')
         more = ["k", "mp", "md", "mr", "mw", "f0"] + (["x0", "f0", "Z", "t%d" % rnd.randrange(nw), "y%d" % rnd.randrange(nw),
-                                                       "p%d" % rnd.randrange(nw)] if efg else [])
+                                                       "p%d" % rnd.randrange(nw), "u%d" % rnd.randrange(nw)] if efg else [])
         toks += [rnd.choice(more) for _ in range(rnd.randint(0, 4))]
         yield "W " + " ".join(toks)
     # --- malformed stream: a well-formed prefix followed by calls the client has no right to make
@@ -676,8 +695,16 @@ def gen(tier, seed, info):
 
 
 # ---------------------------------------------------------------------------------------
+def has_destroy_handler(case):
+    return case.startswith("W ") and any(t[0] == 'b' and t.split('.')[1:2] == ['d'] for t in case.split()[1:])
+
+
 def canon(case, obs):
-    """details after '#' (sanitizer kind, file, function, LSan's own verdict) are for the reader only"""
+    """details after '#' (sanitizer kind, file, function, LSan's own verdict) are for the reader only.
+    The model does not run DESTROY handlers: for scripts that bind one the observation is not compared with the
+    model's; the oracle (the discipline on the trace the harness reports) judges them on its own."""
+    if has_destroy_handler(case):
+        return "(DESTROY handler: not modelled)"
     i = obs.find(" #")
     return obs[:i] if i >= 0 else obs
 
